@@ -484,8 +484,61 @@ fn ti_eval(text: &str) -> Result<Option<String>, String> {
     Ok(None)
 }
 
+/// the instance as a *component*: `a Env {BOOLEAN}` is `a [u] BODY`, `b [3] Env {BOOLEAN}`
+/// (implicit) is `b [3] BODY`; finding F-instance-component-tag: the template's tag is lost
+/// on the component that has no tag of its own
+fn ti_component_eval(default: usize, te: usize, body: usize) -> Result<Option<(String, bool)>, String> {
+    let (e_tag, _) = TI_TAGS[te];
+    let (tb, wb) = TI_BODIES[body];
+    let d = CO_DEFAULTS[default % 4];
+    let text = format!(
+        "Ti-Use DEFINITIONS {d} ::= BEGIN\nEnv {{T}} ::= {e_tag}{tb}\nHolder ::= SEQUENCE {{ a Env {{BOOLEAN}}, b [30] IMPLICIT Env {{BOOLEAN}}, z NULL }}\nWritten ::= SEQUENCE {{ a {e_tag}{wb}, b [30] IMPLICIT {wb}, z NULL }}\nEND\n"
+    );
+    let out = match comp::compile_rasn1(&text, &Cfg::default()) {
+        Outcome::Ok(o) if o.warnings.is_empty() => o,
+        Outcome::Ok(o) => return Err(format!("warnings: {}", o.warnings[0])),
+        Outcome::Err(e) => return Err(e),
+        Outcome::Panic(p) => return Err(format!("panic: {p}")),
+    };
+    let mods = crate::proj::project(&out.generated)?;
+    let m = mods.first().ok_or("no module")?;
+    let (Some(h), Some(w)) = (m.find_struct("Holder"), m.find_struct("Written")) else { return Err("not generated".into()) };
+    for wf in &w.fields {
+        let Some(f) = h.fields.iter().find(|f| f.name == wf.name) else { return Ok(Some((format!("Holder lacks component {}", wf.name), false))) };
+        // the tag of an inline SEQUENCE / SET component stands on the hoisted type or on the field
+        let tag_of = |s: &crate::proj::RStruct, f: &crate::proj::RField| f.attrs.tag.clone().or_else(|| m.find_struct(f.ty.trim_start_matches("Option<").trim_end_matches('>')).and_then(|t| t.attrs.tag.clone())).or_else(|| { let _ = s; None });
+        let (ht, wt) = (tag_of(h, f), tag_of(w, wf));
+        if ht != wt {
+            let listed = wf.name == "a" && ht.is_none() && !e_tag.is_empty();
+            return Ok(Some((format!("component {} of Holder carries {:?}, the same type written out {:?}\n{text}", wf.name, ht, wt), listed)));
+        }
+    }
+    Ok(None)
+}
+
 fn template_instance_leg(ctx: &mut Ctx) {
     let mut reported = 0;
+    for default in 0..4 {
+        for te in 0..TI_TAGS.len() {
+            for body in 0..TI_BODIES.len() {
+                match ti_component_eval(default, te, body) {
+                    Err(_) => ctx.class("template-instance-component:skipped (rejected / warnings)"),
+                    Ok(res) => {
+                        ctx.case(&format!("tic:{default}:{te}:{body}"), true);
+                        ctx.class("leg:instances-of-tagged-templates-as-components");
+                        if let Some((d, listed)) = res {
+                            if listed && ctx.is_known("F-instance-component-tag") {
+                                ctx.fail(Failure { finding: Some("F-instance-component-tag"), what: String::new(), replay: Value::Null });
+                            } else if reported < 3 {
+                                reported += 1;
+                                ctx.fail(Failure { finding: None, what: format!("instance of a parameterized type as a component: {d}"), replay: json!({"kind": "c03-template-instance-component", "default": default, "template_tag": te, "body": body, "observed": d}) });
+                            }
+                        }
+                    }
+                }
+            }
+        }
+    }
     for default in 0..4 {
         for te in 0..TI_TAGS.len() {
             for tr in 0..TI_TAGS.len() {
@@ -537,6 +590,23 @@ pub fn run(tier: Tier, seed: u64, replay: Option<String>) -> i32 {
     let grun = GenericRun { gcfg: gen_cfg(), n: tier.pick(30000, 300000), stream_len: 4000, salt: 3, shrink_budget: 300, max_violations: 4, eval: &e };
     if let Some(p) = &replay {
         let v: Value = serde_json::from_str(&std::fs::read_to_string(p).unwrap_or_default()).unwrap_or_default();
+        if v["kind"] == "c03-template-instance-component" {
+            let (d, te, b) = (v["default"].as_u64().unwrap_or(0) as usize, v["template_tag"].as_u64().unwrap_or(0) as usize, v["body"].as_u64().unwrap_or(0) as usize);
+            match ti_component_eval(d, te, b) {
+                Err(e) => ctx.inconclusive.push(e),
+                Ok(res) => {
+                    ctx.case(&format!("tic:{d}:{te}:{b}"), true);
+                    if let Some((what, listed)) = res {
+                        if listed && ctx.is_known("F-instance-component-tag") {
+                            ctx.fail(Failure { finding: Some("F-instance-component-tag"), what: String::new(), replay: Value::Null });
+                        } else {
+                            ctx.fail(Failure { finding: None, what: format!("instance of a parameterized type as a component: {what}"), replay: v.clone() });
+                        }
+                    }
+                }
+            }
+            return ctx.finish();
+        }
         if v["kind"] == "c03-template-instance" {
             let text = v["sources"][0]["text"].as_str().unwrap_or_default().to_string();
             match ti_eval(&text) {
